@@ -34,3 +34,17 @@ Theorem C05_sharded_lookup_requests_only_the_hash_path : forall size lg, permitt
       end.
 Proof. exact sharded_lookup_requests. Qed.
 Print Assumptions C05_sharded_lookup_requests_only_the_hash_path.
+
+(* resolving a path (lazy target): on ANY block DAG and for any availability, the requests are, segment after segment, the
+   requests of that directory's lookup (none for a plain directory, the hash-path shards for a sharded one) followed by the
+   entry's block - nothing else - and at most 65 requests per segment *)
+From UV Require Import Sel.PathLoads.
+Theorem C05_path_resolution_requests : forall fault hash b segs,
+  snd (walk_path fault hash b segs) = walk_spec fault hash b segs.
+Proof. exact walk_path_requests. Qed.
+Print Assumptions C05_path_resolution_requests.
+
+Theorem C05_path_resolution_bounded : forall fault hash, (forall k, length (hash k) = 8%nat) ->
+  forall segs b, N.of_nat (length (snd (walk_path fault hash b segs))) <= 65 * N.of_nat (length segs).
+Proof. exact walk_path_bounded. Qed.
+Print Assumptions C05_path_resolution_bounded.
